@@ -7,7 +7,7 @@ package raft
 //
 //vx:pkg github.com/openbao/openbao/v2/internal/physical/raft
 //vx:include ../common/raft_models.go
-//vx:param entriesB quick=3 thorough=4
+//vx:param entriesB quick=3 thorough=4 C08.thorough=3
 //vx:param trimAllB quick=0 thorough=0
 //vx:param entriesR quick=3 thorough=3
 //vx:param trimAllR quick=0 thorough=1
